@@ -8,6 +8,6 @@ CONSTANTS
   SDates = {10, 20}
   DelDates = {25}
   DelSigners = {1}
-  Interleave = FALSE
+  MixDeletes = FALSE
 INVARIANTS L1_DeletedClaimsVanish L2_UndeleteRestores L3_ChainParity L4_ZeroIsLatest L5_SignerFilter L6_NoTiesUnique L7_SetIsDelAdd L8_DelValue L9_HistoryIgnoresFuture L10_ModTime L11_Shapes L12_AttrIndependent
 CHECK_DEADLOCK FALSE
